@@ -235,16 +235,25 @@ func c03Run(c *core.Ctx) {
 				if !try(gen.Marshal(mutated), fmt.Sprintf("%s=%s", p, gen.Marshal(r))) {
 					return
 				}
-				// the same mutation hidden from validation: the section holding it is written first, the
-				// intact section after it under the same key, or the mutated one under a key that differs in
-				// letter case only
+				// the same mutation hidden from validation: (a) the mutated section under a key that differs in
+				// letter case only, after the intact one (validation does not know that key, the decoder
+				// matches it and lets it win); (b) the mutated section first and, under the same key, the
+				// section with that member left out after it (validation looks at the last one, the decoder
+				// merges both, so the member of the first survives)
 				if len(p.Path) >= 2 {
 					sec, _ := p.Path[0].(string)
 					if mm, ok := mutated.(map[string]interface{}); ok && sec != "" {
-						for _, firstKey := range []string{sec, strings.ToUpper(sec[:1]) + sec[1:]} {
-							if t, ok := gen.ShadowSection(doc, sec, firstKey, mm[sec]); ok {
-								if !try(t, fmt.Sprintf("%s=%s <in a %q section written before the intact one>", p, gen.Marshal(r), firstKey)) {
-									return
+						if t, ok := gen.ShadowSection(doc, strings.ToUpper(sec[:1])+sec[1:], mm[sec], true); ok {
+							if !try(t, fmt.Sprintf("%s=%s <in a section spelled with a capital letter, after the intact one>", p, gen.Marshal(r))) {
+								return
+							}
+						}
+						if _, isKey := p.Path[len(p.Path)-1].(string); isKey {
+							if without, ok := gen.Replace(doc, p, gen.Delete).(map[string]interface{}); ok {
+								if t, ok := gen.ShadowSection(without, sec, mm[sec], false); ok {
+									if !try(t, fmt.Sprintf("%s=%s <in a section written before one that leaves the member out>", p, gen.Marshal(r))) {
+										return
+									}
 								}
 							}
 						}
